@@ -8,6 +8,7 @@ import (
 	"github.com/relex/gotils/logger"
 	"github.com/relex/gotils/promexporter/promreg"
 	"github.com/relex/slog-agent/base"
+	"github.com/relex/slog-agent/defs"
 	"github.com/relex/slog-agent/zz_verif/fakes"
 	"github.com/relex/slog-agent/zz_verif/sym"
 )
@@ -142,3 +143,79 @@ func VerifC07_KeyValuesAnyBytes() {
 	sym.Assert(len(st.pipes) == 1, "the record gets its pipeline")
 	sym.Reach("done")
 }
+
+// ---- C01 link L2 / C05: per-key buffering and order through the orchestrator sink ----
+
+type verifDrain struct {
+	id   string
+	msgs []string
+	done chan struct{}
+}
+
+func verifOrderScenario() {
+	defer func(v int) { defs.IntermediateBufferMaxNumLogs = v }(defs.IntermediateBufferMaxNumLogs)
+	defs.IntermediateBufferMaxNumLogs = 2
+	var drains []*verifDrain
+	starter := func(l logger.Logger, m promreg.MetricCreator, input <-chan []*base.LogRecord, bufferID string, outputTag string, onStopped func()) {
+		d := &verifDrain{id: bufferID, done: make(chan struct{})}
+		drains = append(drains, d)
+		go func() { // the pipeline's worker: takes batches in channel order
+			for batch := range input {
+				for _, r := range batch {
+					d.msgs = append(d.msgs, r.Fields[2])
+				}
+			}
+			onStopped()
+			close(d.done)
+		}()
+	}
+	o := NewOrchestrator(logger.Root(), verifSchema, []string{"app", "level"}, "t.$app", fakes.NewMetrics(), starter, nil)
+	sink := o.NewSink("client", 7)
+	n := 4 + sym.Tier()
+	want := map[string][]string{}
+	for i := 0; i < n; i++ {
+		app := []string{"a", "b"}[sym.Choice("app", 2)]
+		msg := string([]byte{byte('0' + i)})
+		want[app] = append(want[app], msg)
+		sink.Accept([]*base.LogRecord{verifSchema.NewTestRecord1(base.LogFields{app, "x", msg})})
+		if sym.Bool("tick") {
+			sink.Tick()
+		}
+	}
+	sink.Close()
+	o.Shutdown() // closes the pipeline channels and waits for the workers
+	total := 0
+	for _, d := range drains {
+		app := d.id[:1]
+		sym.Assert(len(d.msgs) == len(want[app]), "every record of a key set reaches its pipeline exactly once (nothing left in the connection's buffers after Close)")
+		for i := range d.msgs {
+			if i < len(want[app]) {
+				sym.Assert(d.msgs[i] == want[app][i], "records of one connection and key set reach the pipeline in arrival order")
+			}
+		}
+		total += len(d.msgs)
+	}
+	sym.Assert(total == n, "no record is lost between the connection and the pipelines")
+	if len(drains) == 2 {
+		sym.Reach("two-keys")
+	}
+	sym.Reach("done")
+}
+
+// VerifC01_SinkFlushesEverything: link L2 of the custody chain.
+//
+//verif:native off
+//verif:preempt 0
+//verif:delays 1
+//verif:clock virtual
+//verif:reach done two-keys
+func VerifC01_SinkFlushesEverything() { verifOrderScenario() }
+
+// VerifC05_PerKeyOrder: the same run read as the ordering guarantee.
+//
+//verif:native off
+//verif:preempt 0
+//verif:delays 1
+//verif:clock virtual
+//verif:reach done two-keys
+func VerifC05_PerKeyOrder() { verifOrderScenario() }
